@@ -50,6 +50,16 @@ fn rt<T: serde::Serialize + serde::de::DeserializeOwned>(v: &T, carrier: usize) 
     }
 }
 
+/// does serde_json itself (not the library) refuse the JSON text of this message? decided on the untyped tree: parsing the
+/// library's output into serde_json::Value involves none of the library's Deserialize code
+fn carrier_refuses(m: &Model) -> bool {
+    let req = mirror::to_ipp(m);
+    match serde_json::to_string(&req) {
+        Ok(s) => serde_json::from_str::<serde_json::Value>(&s).is_err(),
+        Err(_) => false,
+    }
+}
+
 fn one(rep: &mut Report, m: &Model, seed: u64, idx: u64) {
     for carrier in 0..CARRIERS.len() {
         one_carrier(rep, m, seed, idx, carrier);
@@ -145,9 +155,14 @@ fn main() {
             if only.map(|o| o == idx).unwrap_or(true) {
                 let m = case(&shapes, seed, idx);
                 // the JSON carrier (serde_json) refuses documents nested deeper than 128 levels; a collection level costs 2-3
-                if gen::traits(&m).depth > 20 {
+                // the JSON carrier (serde_json) refuses documents nested deeper than 128 JSON levels (a collection level costs 2-3):
+                // beyond 20 collection levels a message is judged only if the carrier itself accepts the library's JSON
+                if gen::traits(&m).depth > 20 && carrier_refuses(&m) {
                     rep.count("skipped_deeper_than_carrier_limit", 1);
                 } else {
+                    if gen::traits(&m).depth > 20 {
+                        rep.count("judged_deeper_than_20_levels", 1);
+                    }
                     one(&mut rep, &m, seed, idx);
                 }
             }
